@@ -52,10 +52,19 @@ def appender_ok(prog, rep, rid, ctx, f, est_field):
         got = dict(news[0].kwargs)
         if news[0].args:
             got["est_elements"] = news[0].args[0]
+        names = ["est_elements", "false_positive_rate", "filepath", "hex_string", "hash_function"]
+        for i, a_ in enumerate(news[0].args):
+            got[names[i]] = a_
         est = strip_epochs(got.get("est_elements", C(None)))
         if est != ("f", SELF, est_field, 0):
             rep.bad(rid, f"{ctx}.{f.src_name}", f"est_elements = {nshow(est)}", "a new sub-filter is not sized with the filter's own est_elements", news[0].where())
             return False
+        for k, fld in (("false_positive_rate", "_ExpandingBloomFilter__fpr"), ("hash_function", "_ExpandingBloomFilter__hash_func")):
+            v = strip_epochs(got.get(k, C(None)))
+            if v != ("f", SELF, fld, 0):
+                rep.bad(rid, f"{ctx}.{f.src_name}", f"{k} = {nshow(v)}",
+                        f"a new sub-filter is built with {k} = {nshow(v)}, not the filter's own: keys hashed for one sub-filter are not valid for the next", news[0].where())
+                return False
     rep.ok(rid, f"{ctx}.{f.src_name}: appends one BloomFilter(est_elements=self est)")
     return True
 
